@@ -311,6 +311,7 @@ type respScript struct {
 	trailersOnly bool // gRPC: status in the header block, no body
 	declareLen   bool // unary targets: set Content-Length
 	splitAt      int  // split each Write at this offset (0 = single write)
+	writeMode    int  // wm* segmentation of the response body
 	noHead       bool // never call WriteHeader explicitly
 	trailerHdrs  http.Header
 	respHdrs     http.Header
@@ -327,13 +328,62 @@ type pipeBackend struct {
 	skipRead bool
 }
 
-func writeSplit(w http.ResponseWriter, b []byte, splitAt int) {
-	if splitAt > 0 && splitAt < len(b) {
-		w.Write(b[:splitAt])
-		w.Write(b[splitAt:])
-		return
+// write modes (segmentation of the backend's response body)
+const (
+	wmFrame   = iota // one Write per frame / body
+	wmSplit          // each frame split in two at splitAt
+	wmBytes          // one byte per Write
+	wmOneShot        // everything written so far is accumulated and written in a single Write at the end
+	wmNoisy          // empty writes and Flush calls around every Write
+)
+
+type segWriter struct {
+	w       http.ResponseWriter
+	mode    int
+	splitAt int
+	pending []byte
+}
+
+func (sw *segWriter) write(b []byte) {
+	switch sw.mode {
+	case wmSplit:
+		if sw.splitAt > 0 && sw.splitAt < len(b) {
+			sw.w.Write(b[:sw.splitAt])
+			sw.w.Write(b[sw.splitAt:])
+			return
+		}
+		sw.w.Write(b)
+	case wmBytes:
+		for i := range b {
+			sw.w.Write(b[i : i+1])
+		}
+	case wmOneShot:
+		sw.pending = append(sw.pending, b...)
+	case wmNoisy:
+		sw.w.Write(nil)
+		if f, ok := sw.w.(http.Flusher); ok {
+			f.Flush()
+		}
+		sw.w.Write(b)
+		sw.w.Write([]byte{})
+		if f, ok := sw.w.(http.Flusher); ok {
+			f.Flush()
+		}
+	default:
+		sw.w.Write(b)
 	}
-	w.Write(b)
+}
+
+func (sw *segWriter) finish() {
+	if sw.mode == wmOneShot && len(sw.pending) > 0 {
+		sw.w.Write(sw.pending)
+		sw.pending = nil
+	}
+}
+
+func writeSplit(w http.ResponseWriter, b []byte, splitAt int) {
+	sw := &segWriter{w: w, mode: wmSplit, splitAt: splitAt}
+	sw.write(b)
 }
 
 func refCodeName(c uint32) string {
@@ -451,13 +501,18 @@ func (b *pipeBackend) ServeHTTP(w http.ResponseWriter, r *http.Request) {
 	if s.errCode != 0 && s.errAfter < n {
 		n = s.errAfter
 	}
+	sw := &segWriter{w: w, mode: s.writeMode, splitAt: s.splitAt}
+	if s.writeMode == wmFrame && s.splitAt > 0 {
+		sw.mode = wmSplit
+	}
+	defer sw.finish()
 	for i := 0; i < n; i++ {
 		m := s.msgs[i]
 		fl := byte(0)
 		if m.compressed {
 			fl = 1
 		}
-		writeSplit(w, appendFrame(nil, fl, encodeMsg(b.codec, m)), s.splitAt)
+		sw.write(appendFrame(nil, fl, encodeMsg(b.codec, m)))
 	}
 	switch b.target {
 	case ProtocolGRPC:
@@ -485,7 +540,7 @@ func (b *pipeBackend) ServeHTTP(w http.ResponseWriter, r *http.Request) {
 				blk += strings.ToLower(k) + ": " + v + "\r\n"
 			}
 		}
-		writeSplit(w, appendFrame(nil, 0x80, []byte(blk)), s.splitAt)
+		sw.write(appendFrame(nil, 0x80, []byte(blk)))
 	default:
 		js := "{"
 		if s.errCode != 0 {
@@ -514,7 +569,7 @@ func (b *pipeBackend) ServeHTTP(w http.ResponseWriter, r *http.Request) {
 			js += "}"
 		}
 		js += "}"
-		writeSplit(w, appendFrame(nil, 2, []byte(js)), s.splitAt)
+		sw.write(appendFrame(nil, 2, []byte(js)))
 	}
 }
 
@@ -572,7 +627,12 @@ func (b *pipeBackend) serveUnary(w http.ResponseWriter, s *respScript) {
 	if !s.noHead {
 		w.WriteHeader(200)
 	}
-	writeSplit(w, body, s.splitAt)
+	sw := &segWriter{w: w, mode: s.writeMode, splitAt: s.splitAt}
+	if s.writeMode == wmFrame && s.splitAt > 0 {
+		sw.mode = wmSplit
+	}
+	sw.write(body)
+	sw.finish()
 }
 
 // ---- client-side reference parse of the transcoder's response --------------------------------------
